@@ -1,6 +1,6 @@
 (* DESIGN-PHASE FEASIBILITY PROBE — not part of the verification machinery, not wired to
    any check.  Question answered: can the rounding error of Go's
-       a1*x1 + a2*x2 + a3*x3        (float32 in ToXYZ/ColorFromXYZ, float64 in matrix.*)
+       a1*x1 + a2*x2 + a3*x3        (float32 in ToXYZ/ColorFromXYZ, float64 in package matrix)
    be bounded for ALL finite inputs (no lattice) from Flocq's Bmult_correct, Bplus_correct
    and error_N_FLT, generically in (prec, emax)?  Yes: `dot3_error` gives finiteness and
      |fl(dot3) - (P1+P2+P3)| <= ((1+u)^3-1)(|P1|+|P2|) + ((1+u)^2-1)|P3| + 13*eta
